@@ -15,6 +15,22 @@ CHECKS = {
         note="Trusts inspect.Signature.bind/apply_defaults of the running CPython as reference; functions are generated source files (plain def and methods); functools.partial and callables that are not functions/methods are outside filter_args' inspected domain.",
         design_ref="2/C07",
     ),
+    "C08": dict(
+        category="exploration",
+        engine="E4-enumerators",
+        technique="bounded-exhaustive enumeration of a typed value universe hashed in separate interpreters (PYTHONHASHSEED varied), all insertion orders, all-pairs discrimination",
+        text="About 27 000 typed values (depth 3) are hashed by the real joblib.hash in 12+ interpreter processes with different hash seeds and both digest algorithms; every insertion order of every dict/set/frozenset node with <= 4 elements is rebuilt and hashed; determinism = identical digest tables, discrimination = injectivity over all ~3.6e8 pairs. Exhaustive over the stated universe, which is the strongest statement a digest property admits short of a proof about pickle.",
+        note="Universe excludes aliased sub-objects (property domain) and ==-equal keys inside one container; 'random' seeds are picked by the interpreter. Runs without numpy (baseline environment).",
+        design_ref="2/C08",
+    ),
+    "C13": dict(
+        category="model_checking",
+        engine="E4-enumerators (explicit-state BFS on the real object)",
+        technique="explicit-state BFS to fixpoint on the real BinaryZlibFile/BinaryGzipFile at scaled block sizes + exhaustive bounded operation sequences at the real block size, against a bytes+position reference model",
+        text="The read-side state machine (position, buffer, offset, input position, decompressor flags) is closed under a 24-operation alphabet for every payload length 0..13 at block sizes 1..16, each edge executed on the real class and compared with the reference stream; all sequences of length <= 3/4 are also run unmerged and at the real 8192-byte block size on boundary-sized payloads; the write side enumerates every chunking x level and decodes with the standard library.",
+        note="State merging uses the full observable implementation state including buffer bytes and decompressor flags; zlib's internal inflate state is assumed determined by the input position. _BUFFER_SIZE is rebound as a module attribute.",
+        design_ref="2/C13",
+    ),
 }
 
 NOT_BUILT_REASON = "check not built yet in this revision of /verif (planned in DESIGN.md section 2; model checking applies)"
